@@ -40,6 +40,8 @@ type WitnessSpec struct {
 	Inconclusive []string            `json:"inconclusive"`
 }
 
+var witnessMu sync.Mutex
+
 type witnessSample struct {
 	F     string        `json:"f"`
 	Args  []interface{} `json:"args"`
@@ -400,15 +402,16 @@ func (e *Engine) witnessFunction(ws WitnessSpec, ss []witnessSample, rep *Witnes
 	for _, l := range ws.Inconclusive {
 		incon[l] = true
 	}
-	prove := func(tag string, st *State, goal string, t int) string {
-		script := e.buildScript(st.decls, st.facts, goal, true)
-		if strings.Contains(script, "gs.lt") {
+	// contract evaluation and script building use engine caches and are serialised; only the solvers run in parallel
+	script := func(st *State, goal string) string {
+		sc := e.buildScript(st.decls, st.facts, goal, true)
+		if strings.Contains(sc, "gs.lt") {
 			// Go compares strings bytewise; contracts only use the order's axioms, concrete instances need its definition
-			script = e.buildScript(st.decls, append(append([]string{}, st.facts...), witnessLexOrder), goal, true)
+			sc = e.buildScript(st.decls, append(append([]string{}, st.facts...), witnessLexOrder), goal, true)
 		}
-		r := raceSolvers(e.workdir, tag, script, t, false)
-		return r.Status
+		return sc
 	}
+	solve := func(tag, sc string, t int) string { return raceSolvers(e.workdir, tag, sc, t, false).Status }
 	// 1. which executions lie inside the precondition
 	type acc struct {
 		s    witnessSample
@@ -425,20 +428,34 @@ func (e *Engine) witnessFunction(ws WitnessSpec, ss []witnessSample, rep *Witnes
 		go func() {
 			defer wg.Done()
 			defer func() { <-sem }()
-			defer func() { recover() }()
-			env, st, desc := e.witnessEnv(fn, con, s, true)
-			ok := true
-			if len(con.Requires) > 0 {
-				var gs []string
-				for _, r := range con.Requires {
-					gs = append(gs, e.cevalBool(r.E, env))
+			var desc, preYes, preNo string
+			havePre := false
+			func() {
+				witnessMu.Lock()
+				defer witnessMu.Unlock()
+				defer func() { recover() }()
+				env, st, d := e.witnessEnv(fn, con, s, true)
+				desc = d
+				if len(con.Requires) > 0 {
+					var gs []string
+					for _, r := range con.Requires {
+						gs = append(gs, e.cevalBool(r.E, env))
+					}
+					pre := and(gs...)
+					preYes, preNo = script(st, pre), script(st, not(pre))
+					havePre = true
 				}
+			}()
+			if desc == "" {
+				return
+			}
+			ok := true
+			if havePre {
 				// decided either way: the precondition follows, or its negation does
-				pre := and(gs...)
 				yes := make(chan bool, 2)
-				go func() { yes <- prove(fmt.Sprintf("%s_witness_pre_%d", ws.Func, i), st, pre, 5) == "unsat" }()
+				go func() { yes <- solve(fmt.Sprintf("%s_witness_pre_%d", ws.Func, i), preYes, 5) == "unsat" }()
 				no := make(chan bool, 2)
-				go func() { no <- prove(fmt.Sprintf("%s_witness_npre_%d", ws.Func, i), st, not(pre), 5) == "unsat" }()
+				go func() { no <- solve(fmt.Sprintf("%s_witness_npre_%d", ws.Func, i), preNo, 5) == "unsat" }()
 				select {
 				case ok = <-yes:
 					if !ok {
@@ -478,12 +495,23 @@ func (e *Engine) witnessFunction(ws WitnessSpec, ss []witnessSample, rep *Witnes
 			continue
 		}
 		one := func(a acc, tag string, t int) string {
-			env, st, _ := e.witnessEnv(fn, con, a.s, true)
-			g := e.cevalBool(cl.E, env)
-			return prove(tag, st, g, t)
+			sc := func() string {
+				witnessMu.Lock()
+				defer witnessMu.Unlock()
+				env, st, _ := e.witnessEnv(fn, con, a.s, true)
+				return script(st, e.cevalBool(cl.E, env))
+			}()
+			return solve(tag, sc, t)
 		}
 		// all executions at once first
 		all := func() string {
+			witnessMu.Lock()
+			locked := true
+			defer func() {
+				if locked {
+					witnessMu.Unlock()
+				}
+			}()
 			st := &State{cells: map[interface{}]Value{}, named: map[string]interface{}{}, heaps: map[string]string{}, maps: map[string]*mapState{}, chans: map[string]*chanState{}, ghost: map[string]Value{}}
 			var gs []string
 			for _, a := range accepted {
@@ -495,7 +523,10 @@ func (e *Engine) witnessFunction(ws WitnessSpec, ss []witnessSample, rep *Witnes
 			if len(gs) == 0 {
 				return "unsat"
 			}
-			return prove(fmt.Sprintf("%s_witness_%s_all", ws.Func, label), st, and(gs...), 8)
+			sc := script(st, and(gs...))
+			witnessMu.Unlock()
+			locked = false
+			return solve(fmt.Sprintf("%s_witness_%s_all", ws.Func, label), sc, secs)
 		}()
 		if all == "unsat" {
 			rep.Clauses[label] = len(accepted)
@@ -524,6 +555,27 @@ func (e *Engine) witnessFunction(ws WitnessSpec, ss []witnessSample, rep *Witnes
 			}()
 		}
 		wg2.Wait()
+		if firstBad != nil && badStatus != "sat" {
+			// not proved is not refuted: what failed under the parallel run is tried again, one at a
+			// time and with twice the time, before it counts
+			var still *acc
+			stillStatus := ""
+			for i := range accepted {
+				a := &accepted[i]
+				if stt := one(*a, fmt.Sprintf("%s_witness_%s_%d_again", ws.Func, label, i), 4); stt == "unsat" {
+					continue // cheap pre-filter: most executions are proved at once
+				}
+				stt := one(*a, fmt.Sprintf("%s_witness_%s_%d_long", ws.Func, label, i), 2*secs)
+				if stt != "unsat" {
+					still, stillStatus = a, stt
+					break // one execution that stays unproved is enough to report
+				}
+			}
+			if still == nil {
+				proved = len(accepted)
+			}
+			firstBad, badStatus = still, stillStatus
+		}
 		rep.Clauses[label] = proved
 		if firstBad != nil {
 			what := "the clause instantiated with this execution of the real function does not follow from the contract's spec functions (" + badStatus + ")"
